@@ -144,8 +144,8 @@ Pads == {[case |-> c, pad |-> pad] : c \in PadBase, pad \in 1..3}
    its setters and encoded again.  What Encode writes then is the wire form of the NEW field values.
    from: the case whose wire form is decoded; to: the case whose fields are then set (only the setters of fields that
    differ are called); auto: the packet identifier is not set by the caller but left to the library (QoS 0 -> 1/2). *)
-SmallPub == {[ty |-> "PUBLISH", dup |-> 0, q |-> q, r |-> r, tl |-> tl, id |-> id, pl |-> pl] :
-               q \in 0..2, r \in 0..1, tl \in {1, 2}, id \in {1, 258}, pl \in {0, 1, 3}}
+SmallPub == {[ty |-> "PUBLISH", dup |-> d, q |-> q, r |-> r, tl |-> tl, id |-> id, pl |-> pl] :
+               d \in 0..1, q \in 0..2, r \in 0..1, tl \in {1, 2}, id \in {1, 258}, pl \in {0, 3}}
 SmallConn == {[ty |-> "CONNECT", ver |-> 4, clean |-> cl, will |-> w.will, wq |-> w.wq, wr |-> w.wr, wtl |-> w.wtl, wml |-> w.wml,
                ul |-> up[1], pwl |-> up[2], ka |-> ka, cidl |-> cidl] :
                cl \in 0..1, ka \in {0, 30}, cidl \in {1, 15},
@@ -165,7 +165,7 @@ Mods == {[from |-> a, to |-> b, auto |-> au] : a \in SmallPub, b \in SmallPub, a
         {[from |-> a, to |-> b, auto |-> FALSE] : a \in SmallUnsub, b \in SmallUnsub}
 ModOK(m) == /\ m.from # m.to
             /\ m.from.ty = "PUBLISH" => /\ (m.auto => m.from.q = 0 /\ m.to.q > 0 /\ m.to.id = 1)
-                                        /\ (m.from.q = 0 => m.from.id = 1) /\ (m.to.q = 0 => m.to.id = 1)   \* no identifier at QoS 0
+                                        /\ (m.from.q = 0 => m.from.id = 1 /\ m.from.dup = 0) /\ (m.to.q = 0 => m.to.id = 1 /\ m.to.dup = 0)   \* no identifier, no DUP at QoS 0
             /\ m.from.ty = "CONNECT" => OneGroup(m.from, m.to)
             /\ m.from.ty \in {"SUBSCRIBE", "UNSUBSCRIBE"} => m.from.k # m.to.k     \* topics added at the end / removed from the end
 
